@@ -125,7 +125,17 @@ class Gen:
 
     def if_(self, depth):
         els = self.body(depth) if self.r.random() < 0.6 else None
-        return ("if", self.cond(), self.body(depth), els)
+        thn = self.body(depth)
+        if self.r.random() < 0.1:
+            # one branch is the empty block `{ }` (the other one is present): the sum with the identity must not be lost
+            if els is None:
+                els = thn
+                thn = ("block", [])
+            elif self.r.random() < 0.5:
+                els = ("block", [])
+            else:
+                thn = ("block", [])
+        return ("if", self.cond(), thn, els)
 
     def for_(self, depth):
         self.fresh += 1
